@@ -169,6 +169,27 @@ def _long_chunk(texts):
     return part
 
 
+# every XML 1.0 character from #x20 up (tab, LF and CR are excluded: a conforming parser itself
+# rewrites them in attribute values, so no escaper that leaves them literal can round-trip them)
+LEGAL_RANGES = ((0x20, 0xD7FF), (0xE000, 0xFFFD), (0x10000, 0x10FFFF))
+
+
+def _codepoint_chunk(args):
+    """Each character alone, after a base letter and before a combining mark (a canonical
+    composition, a case mapping or a compatibility folding changes at least one of the three),
+    in one text per code point together with two characters that must be escaped."""
+    start, stop = args
+    part = core.Part()
+    for code in range(start, stop):
+        char = chr(code)
+        text = char + "&e" + char + "<" + char + "\u0301"
+        for clause, msg in check_escape(text):
+            part.violation(f"{clause}:U+{code:04X}", msg, {"kind": "escape", "text": text})
+        part.count("escape_cases")
+        part.count("codepoint_cases")
+    return part
+
+
 def _duration_chunk(args):
     start, stop, step = args
     part = core.Part()
@@ -218,7 +239,8 @@ def _int_chunk(values):
 
 def _dispatch(job):
     return {"esc": _escape_chunk, "dur": _duration_chunk, "half": _half_chunk,
-            "int": _int_chunk, "long": _long_chunk, "edge": _edge_chunk}[job[0]](job[1])
+            "int": _int_chunk, "long": _long_chunk, "edge": _edge_chunk,
+            "cp": _codepoint_chunk}[job[0]](job[1])
 
 
 def run(ctx):
@@ -229,6 +251,9 @@ def run(ctx):
             jobs.append(("esc", (chunk, length)))
     for chunk in core.split(long_texts(ctx), 16):
         jobs.append(("long", chunk))
+    for low, high in LEGAL_RANGES:
+        for start in range(low, high + 1, 0x4000):
+            jobs.append(("cp", (start, min(start + 0x4000, high + 1))))
     top = 3_700_000
     span = top // 64 + 1
     for start in range(0, top + 1, span):
@@ -259,7 +284,9 @@ def run(ctx):
         "distinct_nontrivial": cnt.get("nontrivial", 0),
         "rule": f"all token sequences of length 0..{max_len} over {len(TOKENS)} tokens (special "
                 "characters, pre-escaped entities, mixed quotes) parsed back with lxml; every token "
-                f"and four mixed patterns repeated {LONG_COUNTS} times; every "
+                f"and four mixed patterns repeated {LONG_COUNTS} times; every XML 1.0 character "
+                "U+0020..U+10FFFF (1,112,030 code points) alone, after a letter and before a "
+                "combining mark; every "
                 "integer millisecond 0..3,700,000 as ms and as seconds; three floats around every "
                 f"k+0.5 s for k in 9..{half_top}; 1e-9..0.5 s either side of the 10 s, 60 s and "
                 "3600 s thresholds; integers to 1e7; non-trivial = texts mixing "
@@ -268,6 +295,7 @@ def run(ctx):
                                                              {"seconds": 59.5}],
         "escape_cases": cnt.get("escape_cases", 0),
         "long_escape_cases": cnt.get("long_escape_cases", 0),
+        "codepoint_cases": cnt.get("codepoint_cases", 0),
         "duration_cases": cnt.get("duration_cases", 0),
         "exhaustive": True,
     }
